@@ -66,12 +66,12 @@ Example C03_rejects_swallowed_control_failure :
   C03_ok [(TCtl, LSaveCondRaise); (TCtl, LLaunchDone false)] = false.
 Proof. reflexivity. Qed.
 
-(* In the configuration of the real system (inference thread 0 with agent and environment, training thread 1
-   with the trainers) and on EVERY accepted trace: a background thread whose callback raised - setup, a step, a
-   training run, a pause or resume hook; not its teardown, after which nothing more runs - sets its exception
-   flag before it ends, whatever else fails on the way (a callback that keeps failing included).  Without the
-   flag the control thread never learns of the dead thread and the system carries on without it. *)
-Theorem C03_failure_is_flagged_on_model : forall max_attempts qmax with_web tr s,
-  run 2 kind2 max_attempts qmax with_web init tr = Some s -> C03_flagged tr = true.
+(* For any number of background threads of any kinds and on EVERY accepted trace: a background thread whose
+   callback raised - setup, a step, a training run, a pause or resume hook; not its teardown, after which
+   nothing more runs - sets its exception flag before it ends, whatever else fails on the way (a callback that
+   keeps failing included).  Without the flag the control thread never learns of the dead thread and the
+   system carries on without it. *)
+Theorem C03_failure_is_flagged_on_model : forall n kind max_attempts qmax with_web tr s,
+  run n kind max_attempts qmax with_web init tr = Some s -> C03_flagged tr = true.
 Proof. exact C03_failure_is_flagged. Qed.
 Print Assumptions C03_failure_is_flagged_on_model.
